@@ -126,6 +126,12 @@ Section LineCounterProofs.
     apply last_nl_range in E. lia.
   Qed.
 
+  Lemma lsp_of_after_newline p : lsp_of isnl p = 0 \/ isnl (lsp_of isnl p - 1) = true.
+  Proof.
+    unfold lsp_of. destruct (last_nl 0 p) eqn:E; [|left; reflexivity].
+    right. apply last_nl_range in E. cbn [Nat.sub]. rewrite Nat.sub_0_r. tauto.
+  Qed.
+
   Lemma lsp_of_no_newline_after p i : lsp_of isnl p <= i -> i < p -> isnl i = false.
   Proof.
     unfold lsp_of. intros L1 L2.
@@ -595,7 +601,7 @@ Section LoopProofs.
       snip_tokens (tk_start t) (tk_end (last_tok t r)) = Some l.
   (* ... and conversely (this is the half that greedy tokens crossing the snippet end break: F8) *)
   Definition H_stable_snippet_to_prefix : Prop :=
-    forall s e l, snip_tokens s e = Some l -> tight s e l ->
+    forall s e l, snip_tokens s e = Some l -> tight s e l -> accepts_end l = true ->
       feed_ok l = true /\ exists rest, main_stream s = l ++ rest.
   (* lexing from the first token's start gives the same stream as lexing from match_start *)
   Definition H_skip : Prop :=
@@ -665,7 +671,7 @@ Section LoopProofs.
     destruct Im as [[= <- <- <-]|[]].
     assert (Hpre : main_stream (it_m it) = (t :: r) ++ (skipn k (it_fed it) ++ tail)).
     { rewrite Hm, Hacc, app_assoc, firstn_skipn. reflexivity. }
-    destruct (Hb _ _ _ Sn T) as (Fl & rest & El).
+    destruct (Hb _ _ _ Sn T A) as (Fl & rest & El).
     cbn [app] in Hpre. rewrite (Hs _ _ _ _ Sr Hpre) in El. rewrite <- Hpre in El.
     destruct (prefix_within_fed it l' rest Hp OK El Fl) as (E1 & E2).
     set (j := length l') in *.
@@ -697,7 +703,7 @@ Section LoopProofs.
     induction fuel as [|fuel IH]; intros pos lc F L p e l Lp Le Sn T A; [lia|].
     assert (St : starts p = true /\ p < e).
     { destruct T as (t & r & -> & T1 & T2). split; [eapply Hst; eauto|].
-      destruct (Hb _ _ _ Sn (ex_intro _ t (ex_intro _ r (conj eq_refl (conj T1 T2))))) as (_ & rest & E).
+      destruct (Hb _ _ _ Sn (ex_intro _ t (ex_intro _ r (conj eq_refl (conj T1 T2)))) A) as (_ & rest & E).
       pose proof (main_chain p) as C. rewrite E in C. apply chain_app_l in C. apply chain_last in C.
       unfold last_tok in T2. lia. }
     destruct St as (St & Lpe).
@@ -720,7 +726,7 @@ Section LoopProofs.
       exists s', e', v. split; [apply in_or_app; right; exact I | exact R]. }
     destruct (Nat.eq_dec p m) as [->|Np].
     - (* a snippet parses from match_start itself: the stunted parse must have accepted a prefix *)
-      destruct (Hb _ _ _ Sn T) as (Fl & rest & El).
+      destruct (Hb _ _ _ Sn T A) as (Fl & rest & El).
       destruct (prefix_within_fed it l rest Hp OK El Fl) as (E1 & E2).
       destruct OK as (_ & tail & k & Hm & Hfed & _ & Hacc & Hk & Hend & Hno).
       unfold it in *. cbn [it_m it_fed it_acc] in *.
